@@ -19,6 +19,7 @@ fn main() {
         Some("strains") => run_range::<simlib::strainsvec::StrainsVecEngine>(seed, from, to, t, out),
         Some("consume") => run_range::<simlib::grad::C11ConsumeEngine>(seed, from, to, t, out),
         Some("builder") => run_range::<simlib::builder::C18Engine>(seed, from, to, t, out),
+        Some("edited") => run_range::<simlib::edited::C11EditedEngine>(seed, from, to, t, out),
         Some("life15") => run_range::<simlib::grad::C15Engine>(seed, from, to, t, out),
         Some("life02") => run_range::<simlib::grad::C02Engine>(seed, from, to, t, out),
         Some("life03") => run_range::<simlib::grad::C03Engine>(seed, from, to, t, out),
